@@ -445,6 +445,8 @@ func main() {
 			"instance_expressions":           len(grammarNodes) + len(arityNodes),
 			"nesting_depth":                  2,
 			"domain_cap_per_type":            domCap,
+			"domain_cap_sequence_types":      domCap + 2,
+			"sequence_domains":               "nil, empty, views base[:2], base, base[:1] (same start) and base[1:] of one array, an independent copy of base[:2], three independent values",
 			"tuple_arities":                  len(tup),
 			"arity_deciding_positions":       maxDecide,
 			"hcons_chain_lengths":            len(hc),
